@@ -23,7 +23,7 @@ RemoveFabric: from the success edge of Fabrics::remove every path reaches Fabric
 only the load I/O error propagates.
 """
 CLAUSES = ['a: key layout', 'b: store/load/remove agreement per key', 'c: start-up and factory-reset handle the same components', 'd: storage errors never dropped; removal persisted before acknowledging',
-           'e: soft-fail load of the optional cache', 'f: every cluster handler that mutates a fabric persists it', 'g: the subscription mirror writes or clears every slot key', 'h: CommissioningComplete writes the fabric record unconditionally']
+           'e: soft-fail load of the optional cache', 'f: every cluster handler that mutates a fabric persists it; a refused label update leaves the fabric untouched', 'g: the subscription mirror writes or clears every slot key', 'h: CommissioningComplete writes the fabric record unconditionally']
 NOT_DECIDED = ['round-trip equality of each persisted structure', 'behaviour at each crash prefix of a multi-write history', 'atomicity of the example file-backed store']
 MIN_OBLIGATIONS = {'q': 60, 'd': 45, 'r': 45}
 
